@@ -101,7 +101,10 @@ type Kernel struct {
 }
 
 // K is the kernel of the current run (nil when no kernel-controlled run is active).
-var K *Kernel
+var kptr atomic.Pointer[Kernel]
+
+// Active returns the kernel of the current run, or nil.
+func Active() *Kernel { return kptr.Load() }
 
 var goidTable [1 << 14]atomic.Pointer[Task]
 
@@ -128,7 +131,7 @@ func NewKernel(ch Chooser) *Kernel {
 		goidTable[i].Store(nil)
 	}
 	k.active.Store(true)
-	K = k
+	kptr.Store(k)
 	return k
 }
 
@@ -136,7 +139,7 @@ func NewKernel(ch Chooser) *Kernel {
 //
 //go:norace
 func Current() *Task {
-	k := K
+	k := kptr.Load()
 	if k == nil || !k.active.Load() {
 		return nil
 	}
@@ -173,7 +176,7 @@ type Token struct{ t *Task }
 //
 //go:norace
 func Spawn() Token {
-	k := K
+	k := kptr.Load()
 	if k == nil || !k.active.Load() {
 		return Token{}
 	}
@@ -219,7 +222,7 @@ func Born(tok Token) {
 			if _, ok := r.(abortSignal); ok {
 				raceDisable()
 				tok.t.state.Store(stDone)
-				K.runDec()
+				kptr.Load().runDec()
 				raceEnable()
 				runtime.Goexit()
 			}
@@ -237,7 +240,7 @@ func Died(tok Token) {
 	if t == nil {
 		return
 	}
-	k := K
+	k := kptr.Load()
 	if r := recover(); r != nil {
 		if _, ok := r.(abortSignal); !ok {
 			buf := make([]byte, 4096)
@@ -249,6 +252,7 @@ func Died(tok Token) {
 			raceEnable()
 		}
 	}
+	raceRelease(unsafe.Pointer(&k.raceToken))
 	raceDisable()
 	t.state.Store(stDone)
 	k.runDec()
@@ -271,12 +275,14 @@ func (k *Kernel) runDec() {
 //
 //go:norace
 func park(t *Task, kind string, w Waitable) {
-	k := K
+	k := kptr.Load()
 	if k.aborted.Load() {
 		panic(abortSignal{})
 	}
-	raceDisable()
+	// everything this task did so far happens-before what the scheduler (and the oracles it runs) does next;
+	// nothing flows the other way, so two tasks are never ordered by the kernel
 	raceRelease(unsafe.Pointer(&k.raceToken))
+	raceDisable()
 	t.kind = kind
 	t.wait = w
 	t.state.Store(stParked)
@@ -315,6 +321,7 @@ func (k *Kernel) lock() { raceDisable(); k.mu.Lock() }
 func (k *Kernel) unlock() { k.mu.Unlock(); raceEnable() }
 
 // Go starts fn as a new task (harness actors). Must be called from the scheduler goroutine or a task.
+//go:norace
 func (k *Kernel) Go(name, node string, fn func()) *Task {
 	tok := Spawn()
 	tok.t.Name = name
@@ -336,6 +343,7 @@ var waitingStates = []string{
 }
 
 // quiescentSnapshot reports whether every goroutine except the caller is in a waiting state.
+//go:norace
 func (k *Kernel) quiescentSnapshot(buf *[]byte) bool {
 	k.Snapshots++
 	for {
@@ -415,6 +423,7 @@ var snapBuf = make([]byte, 1<<20)
 
 // waitQuiescent returns when every task is parked in the kernel (fast path), or every goroutine in the process
 // is blocked (a task is blocked in a native operation: channel, WaitGroup, ...).
+//go:norace
 func (k *Kernel) waitQuiescent() {
 	backoff := 40 * time.Microsecond
 	spins := 0
@@ -465,7 +474,9 @@ type RunResult struct {
 	Stopped   bool     // stop() returned true
 }
 
-// Run is the scheduler loop. It executes on the calling (harness) goroutine. atQuiet, if non-nil, is called at
+// Run is the scheduler loop (//go:norace: it reads the park descriptors the tasks wrote; the hand-off is ordered by
+// the kernel's own channel protocol, which is deliberately hidden from the race detector).
+// It executes on the calling (harness) goroutine. atQuiet, if non-nil, is called at
 // every quiescent instant before the next event is chosen (invariants); stop ends the loop when it returns true.
 func (k *Kernel) Run(maxSteps int, atQuiet func(), stop func() bool) RunResult {
 	res := RunResult{}
@@ -566,6 +577,7 @@ func (k *Kernel) release(t *Task) {
 	raceEnable()
 }
 
+//go:norace
 func (k *Kernel) note(kind string, id int) {
 	h := fnv.New64a()
 	var b [8]byte
@@ -648,5 +660,5 @@ func (k *Kernel) Shutdown() {
 		runtime.Gosched()
 	}
 	k.active.Store(false)
-	K = nil
+	kptr.Store(nil)
 }
